@@ -165,6 +165,17 @@ add('C19', 'model_checking',
     TRUSTED + ' Whether the OS reuses a thread ident is observed, not forced.',
     'TLA+ spec + TLC model checking + TLC-generated schedules replayed on the real runner + TLC trace validation', 'DESIGN.md 5/C19')
 
+add('C11', 'model_checking',
+    'TLC (ShuffleMC.tla over Shuffle.tla): for 3 layers x 0..3 tests x every random stream x every kept-layer subset the '
+    'Fisher-Yates loop of Shuffle.global_setup, action by action, equals the functional definition, is a per-layer '
+    'permutation and consumes a stream segment that depends only on the sizes of the layers sorted before it (so '
+    'filtering after shuffling, and a child repeating the computation, cannot change an order); the FilterFirst '
+    'deviation gives a counterexample. Real bundles (world, seed) - --list-tests, sequential, -j N children, resumed '
+    'children, --layer subsets, clock-seeded runs re-run with the reported seed - are judged by TLC: permutation, '
+    'equality of all observations, seed report, and (DRIFT) equality with the Fisher-Yates order for the choice table.',
+    TRUSTED + ' random.Random(seed).random() enters as the choice table floor(r_p * n); equality across CPython versions is not exercised (DESIGN 7).',
+    'TLA+ spec + TLC exhaustive check + TLC-evaluated oracle on real runs in all modes', 'DESIGN.md 5/C11')
+
 NOT_YET = {
 }
 
